@@ -619,3 +619,49 @@ func TestFindingK2EventsPostedOutOfCasOrder(t *testing.T) {
 	}
 	require.Less(t, cas[0], cas[1], "events reached the feed out of CAS order: %v", keys)
 }
+
+// F26 [C14,C01] The expiry reaper collected the keys that were due and then deleted each one unconditionally, in a later
+// transaction of its own. A document rewritten in between (here: without expiry, by a client that got success back) was
+// deleted all the same, although the expiry in force is the one of the most recent write. The rewrite is placed in the
+// window through the logging callback: the deletion of the first due key logs its event ("DCP: ...") before the reaper
+// turns to the second key.
+func TestFindingF26ReaperSparesRewrittenDocument(t *testing.T) {
+	_, c := findingBucket(t)
+	oldCallback, oldLevel := LoggingCallback, GetLogLevel()
+	defer func() { LoggingCallback = oldCallback; SetLogLevel(oldLevel) }()
+
+	var armed, fired atomic.Bool
+	var other atomic.Value
+	LoggingCallback = func(level LogLevel, f string, args ...any) {
+		if armed.Load() && strings.HasPrefix(f, "DCP: ") && len(args) >= 3 && fired.CompareAndSwap(false, true) {
+			key, _ := args[2].(string)
+			o := "k1"
+			if key == "k1" {
+				o = "k2"
+			}
+			other.Store(o)
+			// the reaper has tombstoned `key` and holds no lock; a client now rewrites the other due document
+			_ = c.SetRaw(o, 0, nil, []byte(`{"v":"rewritten"}`))
+		}
+	}
+	SetLogLevel(LevelInfo)
+	_, err := c.AddRaw("k1", 1, []byte(`{"v":1}`)) // both expire in one second
+	require.NoError(t, err)
+	_, err = c.AddRaw("k2", 1, []byte(`{"v":2}`))
+	require.NoError(t, err)
+	armed.Store(true)
+
+	deadline := time.Now().Add(10 * time.Second)
+	for !fired.Load() && time.Now().Before(deadline) {
+		time.Sleep(20 * time.Millisecond)
+	}
+	require.True(t, fired.Load(), "the expiry pass never ran")
+	time.Sleep(500 * time.Millisecond) // let the pass finish
+	SetLogLevel(oldLevel)
+	LoggingCallback = oldCallback
+
+	o := other.Load().(string)
+	val, _, err := c.GetRaw(o)
+	require.NoError(t, err, "the document rewritten (without expiry) after it fell due was deleted by the expiry pass")
+	require.Equal(t, `{"v":"rewritten"}`, string(val))
+}
